@@ -423,6 +423,7 @@ def run(chk, tier, replay):
              fine_states=tl["fine_emit"].distinct, fine_capability_pairs=len(tl["fine_emit"].cases),
              invariants="TypeOK CapsSound TableBest NoUnsetCall CallBest OverrideOrder FrozenAfterInit")
 
+    report_tables = True
     if replay is not None:
         with open(replay) as fh:
             obj = json.load(fh)
@@ -433,6 +434,7 @@ def run(chk, tier, replay):
             cases = []
         else:
             cases = [Case(c)]
+            report_tables = False        # replaying a kernel case: the tables are only read to name the selected function
     else:
         rg = common.tlc_ok(tl["cases"], "MC_Kernels case generation")
         if rg.violated:
@@ -551,6 +553,9 @@ def run(chk, tier, replay):
                  tlc_fine_model_TableBest=("violated" if fr.violated else "holds"), tlc_fine_states=fr.distinct)
         return fr
 
+    if not report_tables:
+        chk.violations = [v for v in chk.violations if not v[0].startswith("dispatch:")]
+        fine_bad = []
     if fine_bad:
         fr = finish_fine()
         caps, mv, e, fn, best = fine_bad[0]
